@@ -6,6 +6,7 @@ package main
 import (
 	"fmt"
 	"os"
+	"sort"
 	"time"
 
 	"verif/lib/progen"
@@ -13,41 +14,32 @@ import (
 )
 
 func main() {
-	fam := progen.DataflowFamily(1)
-	n := 3
-	if len(os.Args) > 1 {
-		fmt.Sscan(os.Args[1], &n)
+	p := progen.Dataflow(progen.DataflowParams{Kind: "arr", Src: "gen", Size: 2, Cons: "sums"})
+	ref, _ := progen.Interpret(p)
+	_ = ref
+	kind := os.Args[1]
+	job := os.Args[2]
+	t0 := time.Now()
+	opts := psx.BOptions{Fault: &psx.Fault{Job: job, Kind: kind}, KeepDir: true}
+	if len(os.Args) > 3 {
+		fmt.Sscan(os.Args[3], &opts.AutoRetry)
+		opts.Fault.Times = 1
 	}
-	for i := 0; i < n && i < len(fam); i++ {
-		p := progen.Dataflow(fam[i])
-		if p == nil {
-			continue
-		}
-		ref, err := progen.Interpret(p)
-		if err != nil {
-			fmt.Println("interp:", err)
-			continue
-		}
-		t0 := time.Now()
-		r := psx.RunB(p, psx.BOptions{EffectLog: true, Install: "fsmrp"})
-		res := psx.AsResult(p, r)
-		fmt.Printf("%s: exit=%d wall=%v obs=%d effects=%d state=%s\n", fam[i], r.Exit, time.Since(t0), len(r.Obs), len(r.Effects), res.State)
-		for _, v := range psx.CheckDataflow(ref, res) {
-			fmt.Println("  DF:", v)
-		}
-		for _, v := range psx.CheckExactlyOnce(ref, res) {
-			fmt.Println("  X1:", v)
-		}
-		for _, v := range psx.CheckOrder(ref, res) {
-			fmt.Println("  ORD:", v)
-		}
-		if os.Getenv("SHOW") != "" {
-			fmt.Println(r.Console)
-			fmt.Println(r.TopOuts)
-			for _, e := range r.Effects {
-				fmt.Println(e)
-			}
-		}
-		r.Cleanup()
+	r := psx.RunB(p, opts)
+	fmt.Printf("exit=%d sig=%s wall=%v obs=%d lock=%v\n", r.Exit, r.Signal, time.Since(t0), len(r.Obs), r.Lock)
+	for _, o := range r.Obs {
+		fmt.Println("  ", o.Key, o.How, o.Fault)
 	}
+	fmt.Println(r.Console)
+	sort.Strings(r.Completed)
+	fmt.Println(r.Completed)
+	fq, log := psx.ParseFailure(r.Console)
+	fmt.Println("PARSED:", fq, "|", log)
+	// restart
+	r2 := psx.RunB(p, psx.BOptions{Dir: r.Dir})
+	fmt.Printf("restart exit=%d obs=%d\n%s\n%s\n", r2.Exit, len(r2.Obs), psx.ConsoleTail(r2.Console, 6), r2.TopOuts)
+	for _, o := range r2.Obs {
+		fmt.Println("  ", o.Key, o.How, o.Fault)
+	}
+	r.Cleanup()
 }
